@@ -13,6 +13,11 @@ def plan(ctx):
 
 # directed scenarios (in addition to the TLC-simulated ones): combinations a random sample rarely hits
 DIRECTED = [
+    # the return value accumulates over curves; the issuer-key entry carries the HIGHEST severity of the issuer key's failed checks
+    ('ecdsa', 'u2f-then-later-curve', {'s1': 'u2fA', 's2': 'healthy521', 's3': 'healthy384'},
+     [{'all': False, 'check': 'CheckCr50U2f', 'batch': ['s1', 's2']}, {'all': False, 'check': 'CheckCr50U2f', 'batch': ['s3', 's1', 's2']}]),
+    ('ecdsa', 'issuer-two-failures', {'s1': 'tinyissuerA', 's2': 'tinyissuerB', 's3': 'healthyA'},
+     [{'all': False, 'check': 'CheckIssuerKey', 'batch': ['s1', 's2', 's3']}, {'all': True, 'check': 'ALL', 'batch': ['s2', 's1']}]),
     # a suspicion (positive, severity UNKNOWN) must not colour the entries written after it, in the batch or in later calls
     ('rsa', 'lhw-suspicion-first', {'s1': 'lhwA', 's2': 'healthy', 's3': 'small', 's4': 'healthy3072'},
      [{'all': False, 'check': 'CheckLowHammingWeight', 'batch': ['s1', 's2', 's3']}, {'all': True, 'check': 'ALL', 'batch': ['s4']}]),
